@@ -5,7 +5,7 @@
    stylesheet to the grammar and the synonym tables, for all of their entries. *)
 Require Import BB.Base.Str BB.Base.Xml BB.Model.PegSyntax BB.Model.Unparse.
 Require Import BB.Gen.Grammar BB.Gen.TablesTypes BB.Gen.TablesXsl.
-Require Import BB.Proofs.Tables.
+Require Import BB.Proofs.Tables BB.Model.UnparseDoc BB.Proofs.UnparseText.
 
 (* every element of the hierarchical template is printed with a keyword the parser reads back as
    the same element (other has no keyword: listed gap, it is unparsed by the catch-all template) *)
@@ -26,6 +26,15 @@ Theorem C05_keywords_have_templates :
   && forallb (fun k => mem_str (kw_to_elem (syn_of "SpeechContainer") k) xsl_hier_elements) (speech_container_kws ++ speech_group_kws) = true.
 Proof. exact keywords_have_elements. Qed.
 Print Assumptions C05_keywords_have_templates.
+
+(* the model of the unparser (Model/UnparseDoc.v) has a branch for exactly the element names the
+   stylesheet has a template for (header and br are matched through path patterns there) *)
+Theorem C05_templates_are_modelled :
+  forallb (fun t => existsb (fun m => str_eqb t (T_ m)) model_tags || mem_str t xsl_hier_elements) xsl_elements_with_template
+  && forallb (fun m => mem_str (T_ m) xsl_elements_with_template) model_tags
+  && forallb (fun m => negb (mem_str (T_ m) xsl_elements_with_template)) model_path_tags = true.
+Proof. exact templates_are_modelled. Qed.
+Print Assumptions C05_templates_are_modelled.
 
 Example C05_example : (length xsl_hier_elements = 53)%nat /\ hier_keyword (of_string "subsection") = of_string "SUBSEC".
 Proof. split; vm_compute; reflexivity. Qed.
